@@ -196,6 +196,9 @@ class SymBool:
         return f"SymBool({self.t})"
 
 
+GATE_SITE = ("assert_valid_covariance", "covariance_eigenvalues <")
+
+
 def _at_site(sites):
     """Name of the first matching (function name, source substring) site among the calling frames, else ''."""
     import linecache
@@ -321,7 +324,7 @@ def _mk(t):
 
 class SymReal:
     __slots__ = ("t",)
-    __array_priority__ = 1000
+    # no __array_priority__: numpy treats a SymReal as an object scalar and works element-wise
     __hash__ = None
 
     def __init__(self, t):
@@ -698,6 +701,9 @@ def explore(fn, *, assumes=(), max_paths=4000, kmax=3, prune_timeout_ms=3000, co
             c = Ctx(prefix, assumes, prune_timeout_ms=prune_timeout_ms, kmax=kmax)
             if config:
                 c.config.update(config)
+            if c.config.get("gate") == "assume":
+                # validity gate treated as an assumption: its eigenvalue comparison is assumed not to fire (by call site)
+                c.config["assume_false_sites"] = list(c.config.get("assume_false_sites", [])) + [GATE_SITE]
             _set_ctx(c)
             try:
                 val = fn()
